@@ -373,7 +373,7 @@ def minimise(case, violation):
 
 
 def selftest_cases(n):
-    return [gen_case(110_000 + i) for i in range(n)]
+    return [gen_case(110_000 + i) for i in range(n)] + [gen_lockstep(111_000 + i) for i in range(n // 2)]
 
 
 def main(argv=None):
